@@ -1172,3 +1172,60 @@ func treeParam(t *simrt.Tape, strs []string) (string, string) {
 	name := v.urlparams[t.Choose(simrt.KGen, len(v.urlparams))]
 	return name, treeValue(t, v.urlKinds[name], strs)
 }
+
+// scriptObj is an ObjTool over binaries that exist only as a script: Open
+// always succeeds; the disassembler either fails (objdump missing or exiting
+// non-zero) or lists one instruction every 4 bytes; SourceLine answers a pure
+// function of the address.
+type scriptObj struct{ disasmFails bool }
+
+type scriptObjFile struct {
+	name         string
+	start, limit uint64
+}
+
+func (o scriptObj) Open(file string, start, limit, offset uint64, relocationSymbol string) (plugin.ObjFile, error) {
+	return &scriptObjFile{name: file, start: start, limit: limit}, nil
+}
+
+func (o scriptObj) Disasm(file string, start, end uint64, intelSyntax bool) ([]plugin.Inst, error) {
+	if o.disasmFails {
+		return nil, fmt.Errorf("objdump %s: exit status 1", file)
+	}
+	var insts []plugin.Inst
+	for a := start &^ 3; a < end && len(insts) < 256; a += 4 {
+		insts = append(insts, plugin.Inst{Addr: a, Text: fmt.Sprintf("mov %%r%d,%%r%d", a%7, a%5), Function: fmt.Sprintf("sym_%x", a>>8), File: "/src/main.go", Line: int(10 + a%50)})
+	}
+	return insts, nil
+}
+
+func (f *scriptObjFile) Name() string                        { return f.name }
+func (f *scriptObjFile) ObjAddr(addr uint64) (uint64, error) { return addr, nil }
+func (f *scriptObjFile) BuildID() string                     { return "" }
+func (f *scriptObjFile) Close() error                        { return nil }
+func (f *scriptObjFile) SourceLine(addr uint64) ([]plugin.Frame, error) {
+	if addr%13 == 0 {
+		return nil, fmt.Errorf("addr2line: no line for %#x", addr)
+	}
+	n := 1 + int(addr%2)
+	fr := make([]plugin.Frame, n)
+	for i := range fr {
+		fr[i] = plugin.Frame{Func: funcNames[(addr/16+uint64(i))%uint64(len(funcNames))], File: fileNames[(addr/32+uint64(i))%uint64(len(fileNames))], Line: int(11 + (addr+uint64(i))%6)}
+	}
+	return fr, nil
+}
+func (f *scriptObjFile) Symbols(r *regexp.Regexp, addr uint64) ([]*plugin.Sym, error) {
+	var out []*plugin.Sym
+	for i := uint64(0); i < 3; i++ {
+		name := funcNames[i]
+		s := &plugin.Sym{Name: []string{name}, File: f.name, Start: f.start + 0x1000 + i*0x40, End: f.start + 0x1000 + i*0x40 + 0x3f}
+		if r != nil && !r.MatchString(name) {
+			continue
+		}
+		if addr != 0 && (addr < s.Start || addr > s.End) {
+			continue
+		}
+		out = append(out, s)
+	}
+	return out, nil
+}
